@@ -50,7 +50,13 @@ DT_ALL = ['int32', 'int64', 'uint16', 'uint32']
 DT_SIGNED = ['int32', 'int64']
 LIMITS = {'int32': (-2 ** 31, 2 ** 31 - 1), 'int64': (-2 ** 63, 2 ** 63 - 1),
           'uint16': (0, 2 ** 16 - 1), 'uint32': (0, 2 ** 32 - 1),
-          'int8': (-2 ** 7, 2 ** 7 - 1), 'uint8': (0, 2 ** 8 - 1)}       # the 8-bit dtypes: kind spc_dt only
+          'int8': (-2 ** 7, 2 ** 7 - 1), 'uint8': (0, 2 ** 8 - 1),       # the 8-bit dtypes: kind spc_dt and the stage-5 wide cases
+          'int16': (-2 ** 15, 2 ** 15 - 1)}
+# stage 5 (seed C07-m10): the table-based helpers (_unique / _index_of / grouped_mean: a bincount / lookup table of max(id) + 1
+# cells) with ids anywhere in the range of the dtype that holds them -- in particular in the upper half of an unsigned dtype
+# (top bit set) -- and just beyond 2^8 / 2^16.  Ids stay below 2^17: the table is as long as the largest id.
+DT_WIDE = ['int8', 'uint8', 'int16', 'uint16', 'int32', 'uint32', 'int64']
+WIDE = (0, 1, 3, 127, 128, 200, 255, 256, 32767, 32768, 40000, 65535, 65536, 70000)
 # dtypes of the VALUES given to grouped_mean (key 'vdt' of a gmean case; absent = int64) and the integers they hold exactly.
 # The per-cluster sums are accumulated in float64 whatever the dtype of the values (exact below 2^53), so the model stays the
 # exact sum / count; the ranges are there to make the sums LEAVE the dtype of the values.
@@ -62,6 +68,12 @@ def _dts(*lists):
     lo = min([0] + [min(l) for l in lists if l])
     hi = max([0] + [max(l) for l in lists if l])
     return [d for d in DT_ALL if LIMITS[d][0] <= lo and hi <= LIMITS[d][1]]
+
+
+def _dts_wide(*lists):
+    lo = min([0] + [min(l) for l in lists if l])
+    hi = max([0] + [max(l) for l in lists if l])
+    return [d for d in DT_WIDE if LIMITS[d][0] <= lo and hi <= LIMITS[d][1]]
 
 
 def _vectors(alpha, kmax, kmin=0):
@@ -203,6 +215,31 @@ def _corpus():
     c.append(_case('gmean', cols=[[16777215, 16777215, 3, 16777216, 1]], sc=[2, 2, 2, 0, 0], twod=False, dts=DT_ALL, vdt='float32'))
     c.append(_case('gmean', cols=[[1, 1], [1, 0]], sc=[7, 7], twod=True, dts=DT_ALL, vdt='bool'))
     c.append(_case('gmean', cols=[[100, 20, 100, 7, 30, 100]], sc=[5, 2, 5, 9, 2, 5], twod=False, dts=DT_ALL, vdt='int16'))   # sums stay in range
+    # stage 5, seed C07-m10: ids in the upper half of an unsigned dtype (top bit set), at the top of a signed one, beyond 2^16
+    c.append(_case('unique', x=[3, 40000, 3, 7, 65535, 40000, 7, 3], dts=['uint16', 'int32', 'uint32', 'int64']))
+    c.append(_case('unique', x=[200, 128, 255, 0, 128], dts=_dts_wide([255])))
+    c.append(_case('unique', x=[32767, 127, 32767], dts=_dts_wide([32767])))
+    c.append(_case('unique', x=[65536, 70000, 65535], dts=_dts_wide([70000])))
+    c.append(_case('gmean', cols=[[0, 1, 2, 3, 4, 5, 6, 7]], sc=[3, 40000, 3, 7, 65535, 40000, 7, 3], twod=False,
+                   dts=['uint16', 'int32', 'uint32', 'int64']))
+    c.append(_case('gmean', cols=[[5, 1, 2], [1, 1, 0]], sc=[255, 128, 255], twod=True, dts=_dts_wide([255])))
+    c.append(_case('index_of', arr=[65535, 3, 40000, 40000], lookup=[40000, 3, 65535], dts=['uint16', 'int32', 'uint32', 'int64']))
+    c.append(_case('sic', sc=[40000, 3, 65535, 40000], cl=[40000, 7, 65535], dts=['uint16', 'int32', 'uint32', 'int64']))
+    c.append(_case('spikes_of', v=[40000, 3, 65535, 40000], c=40000, which='template', dts=['uint16', 'int32', 'uint32', 'int64']))
+    c.append(_case('counts', sc=[1, 1, 2, 1], st=[300, 1000, 3, 300], nt=4, c=1, dts=DT_ALL))   # histogram as long as the largest template id
+    # stage 5, seed C07-m11: the same queries on a TemplateModel built by the real loader from a directory (spike_templates.npy in
+    # the dtype of the case, spike_clusters.npy present or absent = copied from the templates); ids present = exactly 1..n,
+    # 0..n, with gaps
+    c.append(_case('spikes_of', v=[1, 2, 3, 2, 1, 3], c=1, which='template', via='loader', nt=5, aux=None, dts=DT_ALL))
+    c.append(_case('spikes_of', v=[1, 2, 3, 2, 1, 3], c=0, which='template', via='loader', nt=5, aux=None, dts=DT_ALL))
+    c.append(_case('spikes_of', v=[1, 1, 1], c=1, which='template', via='loader', nt=2, aux=[4, 4, 0], dts=DT_ALL))
+    c.append(_case('spikes_of', v=[1, 2, 3, 2, 1, 3], c=3, which='cluster', via='loader', nt=5, aux=None, dts=DT_ALL))
+    c.append(_case('spikes_of', v=[7, 7, 3, 7, 7, 3], c=7, which='cluster', via='loader', nt=5, aux=[1, 2, 3, 2, 1, 3], dts=DT_ALL))
+    c.append(_case('spikes_of', v=[0, 2, 0, 3], c=2, which='template', via='loader', nt=4, aux=None, dts=DT_ALL))
+    c.append(_case('counts', sc=[1, 2, 3, 2, 1, 3], st=[1, 2, 3, 2, 1, 3], nt=5, c=2, via='loader', sc_absent=True, dts=DT_ALL))
+    c.append(_case('counts', sc=[7, 7, 3, 7, 7, 3], st=[1, 2, 3, 2, 1, 3], nt=5, c=7, via='loader', sc_absent=False, dts=DT_ALL))
+    c.append(_case('counts', sc=[0, 0, 5], st=[0, 1, 1], nt=2, c=0, via='loader', sc_absent=False, dts=DT_ALL))
+    c.append(_case('counts', sc=[2, 2], st=[2, 2], nt=3, c=2, via='loader', sc_absent=True, dts=DT_ALL))
     return c
 
 
@@ -256,6 +293,90 @@ def _gmean_dtype_cases(rng, kmax):
             out.append(_case('gmean', cols=[_vdt_values(rng, vdt, len(v))], sc=v, twod=k % 5 == 0, dts=dts, vdt=vdt))
             if len(v) in (2, 3) and k % 3 == 0:
                 out.append(_case('gmean', cols=[_vdt_values(rng, vdt, len(v)) for _ in range(2)], sc=v, twod=True, dts=dts, vdt=vdt))
+    return out
+
+
+def _wide_cases(rng, count):
+    """stage 5 (seed C07-m10): ids anywhere in the range of the dtype.  Every vector up to length 2 over WIDE for _unique and
+    grouped_mean, then `count` random ones (up to 10 spikes; ids from WIDE, next to its members and uniform below 2^17) for every
+    table-based helper and the selection / query routes; each under every dtype of DT_WIDE that holds the ids."""
+    out = []
+    for v in _vectors(WIDE, 2, 1):
+        out.append(_case('unique', x=v, dts=_dts_wide(v)))
+        if len(v) == 2:
+            out.append(_case('gmean', cols=[[rng.randint(-9, 9) for _ in v]], sc=v, twod=False, dts=_dts_wide(v)))
+    for n in range(count):
+        top = rng.choice([255, 255, 32767, 65535, 65535, 65535, 131071])
+        base = [w for w in WIDE if w <= top]
+        pool = set(rng.sample(base, rng.randint(1, min(5, len(base)))))
+        for _ in range(rng.randint(0, 2)):
+            pool.add(min(top, max(0, rng.choice(base) + rng.randint(-2, 2))))
+        if rng.random() < .5:
+            pool.add(rng.randint(top // 2 + 1, top))          # upper half of the range
+        pool = sorted(pool)
+        m = rng.randint(1, 10)
+        sc = [rng.choice(pool) for _ in range(m)]
+        dts = _dts_wide(sc)
+        kind = n % 7
+        if kind == 0:
+            out.append(_case('unique', x=sc, dts=dts))
+        elif kind == 1:
+            cols = [[rng.randint(-99, 99) for _ in sc] for _ in range(rng.choice([1, 1, 2]))]
+            out.append(_case('gmean', cols=cols, sc=sc, twod=len(cols) > 1, dts=dts))
+        elif kind == 2:
+            lookup = list(pool)
+            rng.shuffle(lookup)
+            out.append(_case('index_of', arr=[rng.choice(lookup) for _ in range(m)], lookup=lookup, dts=_dts_wide(lookup)))
+        elif kind == 3:
+            out.append(_case('sic', sc=sc, cl=_rand_req(rng, pool + [top, 1]), dts=dts))
+        elif kind == 4:
+            out.append(_case('spc_flatten', sc=sc, ids=None, dts=dts))
+        elif kind == 5:
+            out.append(_case('spikes_of', v=sc, c=rng.choice(pool), which=rng.choice(['cluster', 'template']), dts=dts))
+        else:
+            out.append(_case('spc', sc=sc, ids=None, dts=dts))
+    return out
+
+
+def _loader_cases(rng, quick):
+    """stage 5 (seed C07-m11): the three TemplateModel queries on an instance built by the real loader (TemplateModel(dir_path=...))
+    from a directory written for the case: every template vector of length 2 .. 3 (quick) / 4 over {0,1,2,3} (so every set of ids
+    present: 0..n, exactly 1..n, a gap at 0 and elsewhere, one id only), spike_clusters.npy absent (= copied from the templates by
+    the loader) or present (a merge / relabelling of the templates), in every dtype of int32/int64/uint16/uint32; then random
+    longer ones."""
+    out = []
+    alpha = (0, 1, 2, 3)
+    k = 0
+    for st in _vectors(alpha, 3 if quick else 4, 2):
+        for c in (0, 1, 2, 3, 4):
+            k += 1
+            dts = DT_ALL if (not quick or len(st) < 3) else [DT_ALL[k % 4]]
+            out.append(_case('spikes_of', v=st, c=c, which='template', via='loader', nt=4 + k % 2, aux=None, dts=dts))
+            if c in st or k % 3 == 0:
+                out.append(_case('spikes_of', v=st, c=c, which='cluster', via='loader', nt=4 + k % 2, aux=None, dts=dts))
+                out.append(_case('counts', sc=st, st=st, nt=4 + k % 2, c=c, via='loader', sc_absent=True, dts=dts))
+        sc = [(9, 9, 2, 5)[t] for t in st]             # templates 0 and 1 merged into cluster 9, 3 relabelled 5
+        for c in (9, 2, 5, 0):
+            k += 1
+            dts = DT_ALL if (not quick or len(st) < 3) else [DT_ALL[k % 4]]
+            out.append(_case('counts', sc=sc, st=st, nt=4 + k % 2, c=c, via='loader', sc_absent=False, dts=dts))
+            if k % 2:
+                out.append(_case('spikes_of', v=sc, c=c, which='cluster', via='loader', nt=4, aux=st, dts=dts))
+    for _ in range(40 if quick else 600):
+        n = rng.randint(2, 40 if quick else 300)
+        nt = rng.randint(1, 9)
+        lo = rng.choice([0, 0, 1, 1, 2])
+        pool = [t for t in range(lo, nt + 1) if rng.random() < .8] or [lo]
+        st = [rng.choice(pool) for _ in range(n)]
+        style = rng.randrange(3)
+        if style == 0:
+            out.append(_case('spikes_of', v=st, c=rng.choice(pool + [0, nt]), which=rng.choice(['cluster', 'template']),
+                             via='loader', nt=nt + 1, aux=None, dts=DT_ALL))
+        elif style == 1:
+            out.append(_case('counts', sc=st, st=st, nt=nt + 1, c=rng.choice(pool + [0]), via='loader', sc_absent=True, dts=DT_ALL))
+        else:
+            sc = [t if rng.random() < .6 else nt + 1 + t % 2 for t in st]
+            out.append(_case('counts', sc=sc, st=st, nt=nt + 1, c=rng.choice(sc + [0]), via='loader', sc_absent=False, dts=DT_ALL))
     return out
 
 
@@ -315,6 +436,7 @@ def generate(tier, rng):
                 cases.append(_case('sic', sc=v, cl=_rand_req(rng, REQ), dts=DT_ALL))
         cases += _random_cases(rng, 1500, 400, 60)
         cases += _dt_cases(4) + _random_dt_cases(rng, 400, 40)
+        cases += _wide_cases(rng, 400) + _loader_cases(rng, True)
         return cases
     quick = tier == 'quick'
     L = 6 if quick else 8              # grouping, unique
@@ -378,6 +500,9 @@ def generate(tier, rng):
     # ---- the dtype-aware model: every short vector over the extreme values of int8 / uint8; random ones
     cases += _dt_cases(3 if quick else 5)
     cases += _random_dt_cases(rng, 150 if quick else 3000, 30 if quick else 200)
+    # ---- stage 5: ids anywhere in the dtype's range (m10); queries through the real loader (m11)
+    cases += _wide_cases(rng, 140 if quick else 1500)
+    cases += _loader_cases(rng, quick)
     # ---- random long vectors
     if quick:
         cases += _random_cases(rng, 240, 1500, 500)
@@ -432,8 +557,60 @@ def _ftok(x):
     return ['fin', neg, abs(mant), e - 53]
 
 
+def _loaded_model(np, tmp, st, sc, nt, dt):
+    """TemplateModel built by the real loader from a minimal dataset directory: spike_templates.npy in dtype dt,
+    spike_clusters.npy (dtype dt when it holds the ids, else int32) or none, nt templates on 2 channels."""
+    import logging
+    from pathlib import Path
+    from phylib.io.model import TemplateModel
+    if len(st) < 2 or (sc is not None and len(sc) != len(st)) or min(st) < 0 or max(st) >= 2 ** 15:
+        # (a one-spike dataset is refused by _load_spike_samples -- squeeze() makes spike_times 0-d --: dataset loading is C04)
+        raise _Bad('loader cases: at least two spikes, non-negative templates, clusters of the same length')
+    d = Path(tmp)
+    n = len(st)
+    np.save(d / 'spike_times.npy', np.arange(n, dtype=np.uint64) * 30 + 10)
+    np.save(d / 'spike_templates.npy', _arr(np, st, dt))
+    if sc is not None:
+        lo, hi = LIMITS[dt]
+        np.save(d / 'spike_clusters.npy', _arr(np, sc, dt if lo <= min(sc) and max(sc) <= hi else 'int32'))
+    np.save(d / 'templates.npy', ((np.arange(nt * 3 * 2) % 7) - 3.).reshape((nt, 3, 2)).astype(np.float32))
+    np.save(d / 'channel_map.npy', np.arange(2, dtype=np.int32))
+    np.save(d / 'channel_positions.npy', np.array([[0., 0.], [0., 20.]]))
+    np.save(d / 'amplitudes.npy', np.ones(n))
+    logging.disable(logging.CRITICAL)
+    try:
+        return TemplateModel(dir_path=d, sample_rate=30000., n_channels_dat=2, dtype=np.int16)
+    finally:
+        logging.disable(logging.NOTSET)
+
+
+def _one_loader(np, k, i, dt):
+    import tempfile
+    with tempfile.TemporaryDirectory(prefix='vt_c07_') as tmp:
+        if k == 'spikes_of':
+            if i['which'] == 'template':
+                st, sc = i['v'], i.get('aux')
+            elif i.get('aux') is None:
+                st, sc = i['v'], None                      # no spike_clusters.npy: the clusters are the templates
+            else:
+                st, sc = i['aux'], i['v']
+            m = _loaded_model(np, tmp, st, sc, i['nt'], dt)
+            q = m.get_template_spikes if i['which'] == 'template' else m.get_cluster_spikes
+            return ['list', _iarr(np, q(i['c']))]
+        if k == 'counts':
+            if i['sc_absent'] and i['sc'] != i['st']:
+                raise _Bad('sc_absent: the clusters are the templates')
+            m = _loaded_model(np, tmp, i['st'], None if i['sc_absent'] else i['sc'], i['nt'], dt)
+            if m.n_templates != i['nt']:
+                raise ValueError('n_templates = %r' % (m.n_templates,))
+            return ['list', _iarr(np, m.get_template_counts(i['c']))]
+    raise _Bad('no loader route for kind %r' % k)
+
+
 def _one(np, k, i, dt):
     from phylib.io import array as A
+    if i.get('via') == 'loader':
+        return _one_loader(np, k, i, dt)
     if k in ('spc', 'spc_dt'):
         sc = _arr(np, i['sc'], dt)
         ids = None if i['ids'] is None else _arr(np, i['ids'], 'int64' if k == 'spc_dt' else dt)
@@ -606,6 +783,21 @@ def _bucket(n):
 def dist(case, obs):
     k, i = case['kind'], case['inp']
     out = ['kind=' + k, '%s.len=%s' % (k, _bucket(len(_main_vec(case))))]
+    if i.get('via') == 'loader':
+        st = i['st'] if k == 'counts' else i['v'] if i['which'] == 'template' or i.get('aux') is None else i['aux']
+        ids = sorted(set(st))
+        out.append('%s.via=loader' % k)
+        out.append('loader.spike_clusters_file=%s' % (not i['sc_absent'] if k == 'counts' else i.get('aux') is not None))
+        out.append('loader.template_ids=%s' % ('empty' if not ids else '0..n' if ids == list(range(len(ids))) else
+                                               '1..n' if ids == list(range(1, len(ids) + 1)) else 'gapped'))
+    mv = _main_vec(case)
+    if mv and k in ('unique', 'gmean', 'index_of', 'sic', 'spikes_of', 'spc_flatten', 'counts'):
+        top = max(max(mv), max(i.get('st') or [0]), max(i.get('lookup') or [0]))
+        out.append('ids.max=%s' % ('<128' if top < 128 else '<256' if top < 256 else '<2^15' if top < 2 ** 15 else
+                                   '<2^16' if top < 2 ** 16 else '>=2^16'))
+        for dt in i.get('dts', []):
+            if dt in LIMITS and LIMITS[dt][0] == 0 and top > LIMITS[dt][1] // 2:
+                out.append('ids.top_bit_set_in=' + dt)
     for dt in i.get('dts', []):
         out.append('dtype=' + dt)
     if obs[0] == 'multi':
@@ -649,7 +841,7 @@ def size(case):
 
 
 PAR = {'spc': [('sc', 'ids')], 'spc_dt': [('sc', 'ids')], 'spc_flatten': [('sc', 'ids')], 'sic': [('sc',), ('cl',)], 'unique': [('x',)],
-       'index_of': [('arr',), ('lookup',)], 'spikes_of': [('v',)], 'counts': [('sc', 'st')]}
+       'index_of': [('arr',), ('lookup',)], 'spikes_of': [('v', 'aux')], 'counts': [('sc', 'st')]}
 
 
 def _with(case, **kw):
